@@ -114,6 +114,7 @@ class Recorder:
         self.functions, self.fhash = src_hash(functions)
         self.unknown_decisions = 0
         self.lemmas = []
+        self.skipped_after_violations = 0
 
     # -- bookkeeping of exploration -----------------------------------------------------------------
     def end_path(self, c=None):
@@ -134,6 +135,9 @@ class Recorder:
     def prove(self, name, goal, *, replay=None, key=None, required=True, timeout_ms=30000, extra=(), tactics=None, what="", pins=None):
         """goal must be entailed by the context. replay: callable(model) -> python source of a script exiting 1 iff
         the violation shows on the real code (or None when no concrete replay is possible)."""
+        if len(self.violations) >= 3:
+            self.skipped_after_violations += 1
+            return None
         self.obligations += 1
         v = T.prove(goal, timeout_ms=timeout_ms, extra=extra, tactics=tactics)
         full = f"{self.task}:{name}"
